@@ -1,4 +1,4 @@
-\* thorough design check 3: 3 snapshot levels (block and handle snapshots in any nesting)
+\* thorough design check 3: 3 snapshot levels (block and handle snapshots in any nesting), <= 1 entry per storage log
 SPECIFICATION Spec
 CONSTANTS
   Accts = {}
@@ -7,7 +7,7 @@ CONSTANTS
   Vals = {"v1", "v2"}
   InitTries <- Tries1
   MaxABuf = 1
-  MaxSBuf = 2
+  MaxSBuf = 1
   MaxEnt = 2
   MaxSnaps = 3
   MaxCommits = 1
